@@ -191,13 +191,21 @@ func slotsText(ts []slotTok) string {
 
 func buildSlotsAPI(ts []slotTok) *ir.Func {
 	k := 0
-	nm := func() string { k++; return fmt.Sprintf("v%d", k) }
+	// names: every second one is all digits (a NAMED value spelled `%"102"`, which takes no number)
+	nm := func() string {
+		k++
+		if k%2 == 0 {
+			return fmt.Sprint(100 + k)
+		}
+		return fmt.Sprintf("v%d", k)
+	}
 	var params []*ir.Param
 	for _, t := range ts {
 		if t.kind == "P" {
 			p := ir.NewParam("", types.I32)
 			if t.mode == 'n' {
-				p.SetName(nm())
+				// (through the constructor, as a user of the API names a parameter)
+				p = ir.NewParam(nm(), types.I32)
 			} else if t.mode == 'e' {
 				p.LocalID = t.id
 			}
